@@ -165,6 +165,28 @@ void Model::route(int sender, const wire::Msg &m, int addressed) {
       }
       return;
     }
+    if (sender >= 0 && m.type == wire::T_CALL && !(m.flags & wire::FL_NO_REPLY_EXPECTED)) {
+      // a reply slot must be available: not the same (caller, callee, serial) twice, and within the limit
+      long mine = 0;
+      bool dup = false;
+      for (auto &p : pending) {
+        if (p.caller == sender) mine++;
+        if (p.caller == sender && p.callee == addressed && p.serial == m.serial) dup = true;
+      }
+      if (dup || mine >= lim.max_replies_per_connection) {
+        Exp e;
+        e.from_bus = true;
+        e.m = wire::Msg::error(1, m.serial, U(sender), E_LIMITS);
+        e.m.set_field(wire::F_SENDER, wire::Value::string(BUS));
+        e.any_error_name = dup;    // the documents name no error for a reused serial
+        e.ignore_body = true;
+        e.what = dup ? "error: serial of an outstanding call reused" : "error: pending-reply limit";
+        e.prop = dup ? "C09" : "C13";
+        probes[dup ? "serial_reuse_refused" : "limit_replies_hit"]++;
+        emit(sender, e);
+        return;
+      }
+    }
     Exp e;
     e.from_bus = sender < 0;
     e.m = m;
@@ -205,7 +227,7 @@ void Model::route_matches(int sender, const wire::Msg &m, int addressed, bool re
     e.from_bus = sender < 0;
     e.m = m;
     e.what = eavesdropping ? "eavesdropped copy" : "broadcast delivery";
-    e.prop = eavesdropping ? "C05" : "C07";
+    e.prop = eavesdropping ? "C05" : (sender < 0 ? "C04" : "C07");
     e.optional = eavesdropping;
     if (eavesdropping) probes["eavesdrop_copy"]++; else probes["broadcast_copy"]++;
     emit((int)rc, e);
@@ -261,6 +283,7 @@ void Model::reply_err(int c, const wire::Msg &call, const std::string &name, std
   e.last = true;
   e.optional = (call.flags & wire::FL_NO_REPLY_EXPECTED) != 0;
   e.what = "error reply to " + call.member();
+  e.any_destination = !conns[(size_t)c].hello;
   e.prop = name == E_LIMITS ? "C13" : name == E_ACCESS ? "C06" : prop_of_member(call.member());
   if (can_receive && !can_receive(-1, e.m, c, c, true)) return;
   emit(c, e);
@@ -329,11 +352,41 @@ void Model::disconnect(int c) {
     }
   }
   if (k.hello) name_owner_changed(U(c), U(c), "");
+  if (k.hello) {
+    // Rules of other connections whose sender= or destination= is this unique name can never match
+    // again (unique names are not reused).  Whether the bus keeps or discards them is not specified:
+    // observable only through RemoveMatch and the rule limit -> choice point, read white-box.
+    std::string un = resolve(U(c));
+    for (size_t o = 0; o < conns.size(); o++) {
+      if ((int)o == c || !conns[o].alive) continue;
+      Choice ch;
+      ch.id = "rules-naming-vanished-unique-name";
+      ch.conn = (int)o;
+      for (size_t i = 0; i < conns[o].rules.size(); i++) {
+        const mr::Rule &r = conns[o].rules[i];
+        if ((r.has_sender && r.sender == un) || (r.has_destination && r.destination == un)) { ch.rule_idx.push_back(i); conns[o].rule_doomed[i] = true; }
+      }
+      if (!ch.rule_idx.empty()) { open_choices.push_back(ch); probes["rule_names_vanished_unique"]++; }
+    }
+  }
   k.hello = false;
   k.rules.clear();
   k.rule_texts.clear();
+  k.rule_doomed.clear();
   exp[(size_t)c].clear();
   floating[(size_t)c].clear();
+}
+
+void Model::resolve_rule_choice(int conn, const std::vector<size_t> &idx, bool dropped) {
+  if (conn < 0 || (size_t)conn >= conns.size() || !dropped) return;
+  Conn &k = conns[(size_t)conn];
+  for (size_t j = idx.size(); j-- > 0;) {
+    size_t i = idx[j];
+    if (i >= k.rules.size()) continue;
+    k.rules.erase(k.rules.begin() + (long)i);
+    k.rule_texts.erase(k.rule_texts.begin() + (long)i);
+    k.rule_doomed.erase(k.rule_doomed.begin() + (long)i);
+  }
 }
 
 void Model::resolve_choice(const std::string &name, const std::vector<int> &actual) {
@@ -365,6 +418,12 @@ void Model::driver(int c, const wire::Msg &m) {
   if (member == "Hello") {
     if (!m.body.empty()) { reply_err(c, m, ""); return; }
     if (k.hello) { reply_err(c, m, ""); probes["second_hello"]++; return; }
+    {
+      long active = 0, same_uid = 0;
+      for (auto &o : conns) if (o.alive && o.hello) { active++; if (o.uid == k.uid) same_uid++; }
+      if (active >= lim.max_completed_connections) { reply_err(c, m, E_LIMITS); probes["limit_completed_hit"]++; return; }
+      if (same_uid >= lim.max_connections_per_user) { reply_err(c, m, E_LIMITS); probes["limit_per_user_hit"]++; return; }
+    }
     k.hello = true;
     name_owner_changed(U(c), "", U(c));
     name_signal(c, "NameAcquired", U(c));
@@ -525,11 +584,22 @@ void Model::driver(int c, const wire::Msg &m) {
     mr::Rule r;
     std::string why;
     mr::ParseVerdict v = mr::parse(m.body[0].str, &r, &why);
-    if (v == mr::PV_INVALID) { reply_err(c, m, "", {E_RULE_INVALID}); probes["addmatch_invalid"]++; return; }
-    if (v == mr::PV_UNSPECIFIED) { reply_err(c, m, ""); probes["addmatch_unspecified"]++; return; }  // generator keeps away; see simbus
-    if ((long)k.rules.size() >= lim.max_match_rules_per_connection) { reply_err(c, m, E_LIMITS); probes["limit_rules_hit"]++; return; }
+    bool at_limit = (long)k.rules.size() >= lim.max_match_rules_per_connection;
+    // an invalid rule at the limit may be refused for either reason
+    if (v == mr::PV_INVALID) { reply_err(c, m, "", at_limit ? std::vector<std::string>{E_RULE_INVALID, E_LIMITS} : std::vector<std::string>{E_RULE_INVALID}); probes["addmatch_invalid"]++; return; }
+    if (v == mr::PV_UNSPECIFIED) {
+      // the documents do not say whether this text is a rule: any single reply, and this connection's
+      // deliveries are no longer predicted
+      probes["addmatch_unspecified"]++;
+      k.unchecked = true;
+      exp[(size_t)c].clear();
+      floating[(size_t)c].clear();
+      return;
+    }
+    if (at_limit) { reply_err(c, m, E_LIMITS); probes["limit_rules_hit"]++; return; }
     k.rules.push_back(r);
     k.rule_texts.push_back(m.body[0].str);
+    k.rule_doomed.push_back(false);
     reply_ok(c, m, {});
     probes["addmatch_ok"]++;
     return;
@@ -546,10 +616,23 @@ void Model::driver(int c, const wire::Msg &m) {
       if (k.rules[i] == r) {
         k.rules.erase(k.rules.begin() + (long)i);
         k.rule_texts.erase(k.rule_texts.begin() + (long)i);
+        k.rule_doomed.erase(k.rule_doomed.begin() + (long)i);
         reply_ok(c, m, {});
         probes["rmmatch_ok"]++;
         return;
       }
+    }
+    if (known.count("C07-removematch-ack-before-error")) {
+      // listed known finding: the success reply is queued before the lookup and still goes out
+      Exp a;
+      a.from_bus = true;
+      a.m = wire::Msg::method_return(1, m.serial, U(c), {});
+      a.m.set_field(wire::F_SENDER, wire::Value::string(BUS));
+      a.optional = true;
+      a.finding = "C07-removematch-ack-before-error";
+      a.what = "spurious success reply to a failing RemoveMatch";
+      a.prop = "C07";
+      emit(c, a);
     }
     reply_err(c, m, E_RULE_NOT_FOUND);
     probes["rmmatch_notfound"]++;
@@ -709,7 +792,7 @@ bool satisfies(const Model &md, const Exp &e, const wire::Msg &o, std::string *w
   } else if (e.m.type != o.type) return no("type");
   // no field the sender injected may survive
   for (auto &f : o.fields)
-    if (f.code >= wire::F_CONTAINER_INSTANCE) return no("unknown or container-instance header field delivered");
+    if (f.code >= wire::F_CONTAINER_INSTANCE) return no("C03: unknown or container-instance header field delivered");
   if (e.m.reply_serial() != o.reply_serial()) return no("reply_serial");
   if (e.m.type == 0) {
     // a reply the bus produces itself: whatever its form, it must say it comes from the bus
@@ -731,10 +814,12 @@ bool satisfies(const Model &md, const Exp &e, const wire::Msg &o, std::string *w
   if (e.m.path() != o.path()) return no("path");
   if (e.m.interface() != o.interface()) return no("interface");
   if (e.m.member() != o.member()) return no("member");
-  if (e.m.has_field(wire::F_DESTINATION) != o.has_field(wire::F_DESTINATION)) return no("destination presence");
-  if (e.m.has_field(wire::F_DESTINATION) && !name_eq(md, e.m.destination(), o.destination())) return no("destination");
-  if (!o.has_field(wire::F_SENDER)) return no("no sender");
-  if (!name_eq(md, e.m.sender(), o.sender())) return no("sender is " + o.sender());
+  if (!e.any_destination) {
+    if (e.m.has_field(wire::F_DESTINATION) != o.has_field(wire::F_DESTINATION)) return no("destination presence");
+    if (e.m.has_field(wire::F_DESTINATION) && !name_eq(md, e.m.destination(), o.destination())) return no("destination");
+  }
+  if (!o.has_field(wire::F_SENDER)) return no("C03: no sender");
+  if (!name_eq(md, e.m.sender(), o.sender())) return no("C03: sender is " + o.sender());
   if (!e.from_bus) {
     if (e.m.serial != o.serial) return no("serial");
     if (e.m.flags != o.flags) return no("flags");
